@@ -39,6 +39,7 @@ type listener struct{ calls int }
 func (l *listener) OnViewChanged(bool) { l.calls++ }
 
 type world struct {
+	sub  time.Duration // sub-second part of the view start time (the clock is not aligned to seconds)
 	n    int
 	keys []*dposkit.Key
 	arbs *state.ArbitratorsMock
@@ -71,12 +72,13 @@ type outcome struct {
 // run evaluates the schedule times (ascending, last = T) on a fresh view.
 func (w *world) run(ver int, o0 uint32, times []time.Duration) outcome {
 	l := &listener{}
-	v := manager.VerifNewView(w.arbs, w.keys[0].PK, tolerance, t0, l)
+	base := t0.Add(w.sub)
+	v := manager.VerifNewView(w.arbs, w.keys[0].PK, tolerance, base, l)
 	off := o0
 	var out outcome
 	for i, t := range times {
 		before := off
-		now := t0.Add(t)
+		now := base.Add(t)
 		if ver == 0 {
 			v.ChangeView(&off, now)
 		} else {
@@ -93,7 +95,7 @@ func (w *world) run(ver int, o0 uint32, times []time.Duration) outcome {
 		}
 	}
 	out.Offset = off
-	out.Rem = t0.Add(times[len(times)-1]).Sub(v.GetViewStartTime())
+	out.Rem = base.Add(times[len(times)-1]).Sub(v.GetViewStartTime())
 	out.OnDuty = v.IsOnDuty()
 	return out
 }
@@ -185,6 +187,7 @@ type caseT struct {
 	N       int     `json:"arbiters"`
 	Offset  uint32  `json:"start_offset"`
 	TimesNs []int64 `json:"times_ns"` // intermediate evaluation instants then T (elapsed since view start)
+	SubNs   int64   `json:"view_start_subsecond_ns,omitempty"`
 }
 
 func verName(v int) string {
@@ -251,7 +254,7 @@ func (w *world) compare(r *sink, ver int, o0 uint32, times []time.Duration, one 
 	r.Violate(fmt.Sprintf("C26|polling-dependence|%s|%s", verName(ver), class),
 		fmt.Sprintf("%s, %d arbiters, start offset %d, elapsed %v: one evaluation gives offset %d remainder %v onDuty %v; evaluating at %v first gives offset %d remainder %v onDuty %v",
 			verName(ver), w.n, o0, times[len(times)-1], one.Offset, one.Rem, one.OnDuty, times[:len(times)-1], ch.Offset, ch.Rem, ch.OnDuty),
-		caseT{Ver: ver, N: w.n, Offset: o0, TimesNs: ns})
+		caseT{Ver: ver, N: w.n, Offset: o0, TimesNs: ns, SubNs: int64(w.sub)})
 }
 
 func (w *world) onDutyRef(off uint32) bool {
@@ -287,6 +290,7 @@ func main() {
 		var c caseT
 		sig := r.LoadReplay(&c)
 		w := newWorld(c.N, all)
+		w.sub = time.Duration(c.SubNs)
 		times := make([]time.Duration, len(c.TimesNs))
 		for i, t := range c.TimesNs {
 			times[i] = time.Duration(t)
@@ -320,13 +324,30 @@ func main() {
 			}
 		}
 	}
+	// sub-family: view start times with a sub-second part (0.2 s and 0.8 s past the second)
+	mainJobs := len(jobs)
+	for _, sub := range []time.Duration{200 * time.Millisecond, 800 * time.Millisecond} {
+		for _, n := range []int{2, 12} {
+			w := newWorld(n, all)
+			w.sub = sub
+			for ver := 0; ver < 2; ver++ {
+				for o0 := 0; o0 <= 3*n; o0++ {
+					jobs = append(jobs, job{w, ver, uint32(o0)})
+				}
+			}
+		}
+	}
 	var timePoints, dev2 int64
 	sinks := make([]sink, len(jobs))
 	par.Go(len(jobs), func(i int) {
 		j := jobs[i]
 		w := j.w
 		r := &sinks[i]
-		ts := w.timeSet(j.ver, j.o0, gridS, 2*w.n+3)
+		g := gridS
+		if i >= mainJobs {
+			g = 60
+		}
+		ts := w.timeSet(j.ver, j.o0, g, 2*w.n+3)
 		atomic.AddInt64(&timePoints, int64(len(ts)))
 		// one-shot pass: monotonicity + on-duty reference
 		ones := make([]outcome, len(ts))
@@ -406,7 +427,7 @@ func main() {
 		"distinct_nontrivial":                           ct.bothAdvanced + ncMoved,
 		"arbiter_count_change_cases":                    ncCases,
 		"arbiter_count_change_cases_offset_moved_after": ncMoved,
-		"rule":                  fmt.Sprintf("versions {ChangeView, ChangeViewV1} x arbiter counts %v x start offsets 0..3n x instants {1 s grid 0..%d s} ∪ {b-1ns,b,b+1ns for every boundary b of the first 2n+3 views under the one-shot and under the evaluate-at-every-boundary schedule, located by bisection on the real code}; polling schedules: one evaluation at T vs one intermediate evaluation at every earlier instant (thorough: also two intermediate evaluations over boundary instants + 7 s grid, first 150). non-trivial = chained schedules (all distinct) in which the intermediate evaluation moved the offset and the final evaluation moved it again. Family B (long-lived view across an arbiter-count change): both versions x every ordered pair n1 != n2 of the same counts x start offsets {0,1,n1-1,n1,n1+1,n2-1,n2,n2+1,2n1,3n1} x {no reset, ResetView + offset 0 at the change} x every pair t1 < t2 of {1 s grid 0..%d s} ∪ {boundary instants (up to 1200 s) of the first 6 views under n1 and under n2}: the view evaluated at t1 under n1 and at t2 under n2 vs a fresh view with the same offset/start time that only saw n2, evaluated at t2; non-trivial = cases whose post-change evaluation moved the offset", ns, gridS, r.Pick(60, 150)),
+		"rule":                  fmt.Sprintf("versions {ChangeView, ChangeViewV1} x arbiter counts %v x start offsets 0..3n (plus, for n in {2,12} and a 60 s grid, view start times 0.2 s and 0.8 s past the full second) x instants {1 s grid 0..%d s} ∪ {b-1ns,b,b+1ns for every boundary b of the first 2n+3 views under the one-shot and under the evaluate-at-every-boundary schedule, located by bisection on the real code}; polling schedules: one evaluation at T vs one intermediate evaluation at every earlier instant (thorough: also two intermediate evaluations over boundary instants + 7 s grid, first 150). non-trivial = chained schedules (all distinct) in which the intermediate evaluation moved the offset and the final evaluation moved it again. Family B (long-lived view across an arbiter-count change): both versions x every ordered pair n1 != n2 of the same counts x start offsets {0,1,n1-1,n1,n1+1,n2-1,n2,n2+1,2n1,3n1} x {no reset, ResetView + offset 0 at the change} x every pair t1 < t2 of {1 s grid 0..%d s} ∪ {boundary instants (up to 1200 s) of the first 6 views under n1 and under n2}: the view evaluated at t1 under n1 and at t2 under n2 vs a fresh view with the same offset/start time that only saw n2, evaluated at t2; non-trivial = cases whose post-change evaluation moved the offset", ns, gridS, r.Pick(60, 150)),
 		"exhaustive":            true,
 		"jobs":                  len(jobs),
 		"instants_total":        timePoints,
